@@ -235,11 +235,11 @@ fn remap_obj(op: &mut Op, lo: usize, n: usize, objects: usize) {
 pub fn panic_case(p: &Profile) -> BoxedStrategy<Case> {
     let p = p.clone();
     let mut healthy = p.clone();
-    healthy.opw = OpW { desync: 10, sync: 8, trysync: 2, futdesync: 5, await_: 5, futsync: 2, after: 0, waitfor: 1, opengate: 0, release: 0, pollonce: 1, ..OpW::default() };
+    healthy.opw = OpW { desync: 10, sync: 8, trysync: 2, futdesync: 5, await_: 5, futsync: 2, after: 0, waitfor: 1, opengate: 0, rewake: 0, release: 0, pollonce: 1, ..OpW::default() };
     healthy.stepw = StepW { awaitgate: 0, opengate: 0, blockongate: 0, nested_sync: 0, nested_desync: 1, nested_futdesync: 0, awaitfutsync: 0, awaitfutdesync: 0, ..StepW::default() };
     let bystanders = vec(vec(op_strategy(&healthy), 0..=3), 0..=2);
     let phase2 = vec(vec(op_strategy(&healthy), 1..=4), 1..=3);
-    (1u8..=3, 2u8..=4, 0u8..10, bystanders, phase2, sched_strategy(p.sched_bytes), prop::bool::weighted(0.3), vec(0u8..5, 1..=3), (prop::bool::weighted(0.3), vec((any::<u8>(), 0u8..3), 0..=2))).prop_map(|(pool, objects, ctx, mut by, mut ph2, sched, unlock_points, attempts, (quiet, parked))| {
+    (1u8..=3, 2u8..=4, 0u8..10, bystanders, phase2, sched_strategy(p.sched_bytes), prop::bool::weighted(0.3), vec(0u8..5, 1..=3), (prop::bool::weighted(0.3), vec((any::<u8>(), 0u8..4), 0..=2))).prop_map(|(pool, objects, ctx, mut by, mut ph2, sched, unlock_points, attempts, (quiet, parked))| {
         // the panicking op and its runner context
         let mut callers: Vec<Vec<Op>> = vec![];
         let panic_body = vec![Step::Touch, Step::Yield, Step::Panic];
@@ -290,7 +290,9 @@ pub fn panic_case(p: &Profile) -> BoxedStrategy<Case> {
                 // (gate and slot numbers are raw bytes too: 128 scales to gate 1 of 2)
                 0 => vec![Op::FutDesync { o, body: vec![Step::AwaitGate { g: 128 }, Step::Touch], slot: 0, id: 0 }, Op::DropFut { slot: 0 }],
                 1 => vec![Op::FutDesync { o, body: vec![Step::Touch, Step::AwaitGate { g: 128 }], slot: 0, id: 0 }, Op::PollOnce { slot: 0 }],
-                _ => vec![Op::After { o, g: 128, body: vec![Step::Touch], slot: 0, id: 0 }, Op::Detach { slot: 0 }],
+                2 => vec![Op::After { o, g: 128, body: vec![Step::Touch], slot: 0, id: 0 }, Op::Detach { slot: 0 }],
+                // polled once by its caller, woke itself during that poll: the queue waits for another poll *and* sits in the schedule
+                _ => vec![Op::FutDesync { o, body: vec![Step::SelfWake, Step::Touch], slot: 0, id: 0 }, Op::PollOnce { slot: 0 }],
             };
             for x in op.iter_mut() {
                 // (object indices in generated programs are raw bytes scaled by the number of objects)
